@@ -161,6 +161,7 @@ inline vf::CaseResult run_c16(const vf::RunnerArgs& /*args*/, const std::vector<
                 std::uint64_t reclaim_seen = 0;
                 retired = 0;
                 std::string werr;
+                std::string gc_err;
                 Epoch e_mid = 0;
                 Epoch e_end = 0;
                 bool epoch_exited = false;
@@ -173,6 +174,14 @@ inline vf::CaseResult run_c16(const vf::RunnerArgs& /*args*/, const std::vector<
                     if (enter(tok) != status::OK) {
                         werr = "enter failed";
                         return;
+                    }
+                    {
+                        // like in the first cycle, the gc epoch is below the begin epoch of a session that has just entered (a gc epoch
+                        // left ahead by the previous cycle releases what this session reads)
+                        sched::NoYield g;
+                        const Epoch mine = static_cast<thread_info*>(tok)->get_begin_epoch();
+                        const Epoch gce = garbage_collection::get_gc_epoch();
+                        if (gce >= mine) { gc_err = "the gc epoch is " + std::to_string(gce) + " when a session enters at epoch " + std::to_string(mine); }
                     }
                     for (unsigned i = 0; i < nkeys; ++i) {
                         std::string k = "k" + std::to_string(i);
@@ -222,6 +231,7 @@ inline vf::CaseResult run_c16(const vf::RunnerArgs& /*args*/, const std::vector<
                    << " reclaimed_while_running=" << reclaim_seen << "]\n";
                 events.clear();
                 if (!werr.empty()) { failx("cycle_op_failed", werr); }
+                if (!gc_err.empty()) { failx("gc_epoch_not_below_entering_session", gc_err); }
                 ++st.checks;
                 if (epoch_exited) { failx("epoch_thread_exited", "the epoch thread left its loop while the system is running (before fin())"); }
                 if (gc_exited) { failx("gc_thread_exited", "the gc thread left its loop while the system is running (before fin())"); }
@@ -247,10 +257,25 @@ inline vf::CaseResult run_c16(const vf::RunnerArgs& /*args*/, const std::vector<
             if (do_destroy) {
                 if (leave_open) { leave(open_tok); }
                 leave_open = false;
+                // sometimes a session stays open across destroy() (the project's tests do enter / put / destroy / put / leave)
+                const bool across = c.chance(1, 2);
+                Token across_tok{};
+                if (across && enter(across_tok) != status::OK) { failx("cycle_op_failed", "enter before destroy() failed"); }
                 destroy();
                 const bool twice = c.chance(1, 2);
                 if (twice) { destroy(); }
-                tx << (twice ? " destroy x2" : " destroy");
+                tx << (twice ? " destroy x2" : " destroy") << (across ? " (one session open across it)" : "");
+                if (across) {
+                    auto* ti = static_cast<thread_info*>(across_tok);
+                    ++st.checks;
+                    if (!ti->get_running() || ti->get_begin_epoch() == 0) { failx("destroy_closed_open_session", "destroy() cleared the slot of a session that is still open"); }
+                    Token other{};
+                    if (enter(other) != status::OK) { failx("destroy_unusable", "enter fails after destroy()"); }
+                    ++st.checks;
+                    if (other == across_tok) { failx("destroy_closed_open_session", "after destroy() enter hands out the token of a session that is still open"); }
+                    leave(other);
+                    leave(across_tok);
+                }
                 std::vector<std::pair<std::string, tree_instance*>> lst;
                 ++st.checks;
                 if (list_storages(lst) != status::WARN_NOT_EXIST) { failx("destroy_not_empty", "storages survive destroy()"); }
